@@ -94,7 +94,7 @@ M('c06_new_unwrap', ['C06'], ['C06-R2'], 'forget-timer handler unwraps the remov
 M('c06_fill_fit_test_weakened', ['C06', 'C07', 'C15'], ['C06-R2'], 'fill writes an entry that may not fit',
   (BROADCAST, '            if buffer.remaining_mut() >= node.data.len() {\n                num_taken += 1;',
    '            if buffer.remaining_mut() > 0 {\n                num_taken += 1;'))
-M('c06_prefix_fit_forgets_prefix', ['C06', 'C07', 'C16'], ['C06-R2'], 'length-prefixed fill forgets the 2 prefix bytes in the fit test',
+M('c06_prefix_fit_forgets_prefix', ['C06', 'C15', 'C16'], ['C06-R2', 'C15-R2', 'C16-R3'], 'length-prefixed fill forgets the 2 prefix bytes in the fit test',
   (BROADCAST, 'if buffer.remaining_mut() >= node.data.len() + 2 {', 'if buffer.remaining_mut() >= node.data.len() {'))
 M('c06_reservoir_index', ['C06'], ['C06-R2'], 'reservoir replacement index may equal wanted',
   (MEMBER, 'if replace_at < wanted {', 'if replace_at <= wanted {'))
@@ -747,3 +747,131 @@ M('c20_skip_marker_byte', ['C20'], ['C20-R2'], 'decode_member silently skips a l
             buf.advance(1);
         }
         let remaining = buf.remaining();'''))
+
+# ================================================================ neutral (behaviour-preserving) edits
+ALL = ['C01', 'C06', 'C07', 'C08', 'C09', 'C10', 'C11', 'C12', 'C13', 'C15', 'C16', 'C17', 'C18', 'C19', 'C20']
+N('n_comments_and_blank_lines', ALL, 'comments and blank lines added; every line number after them shifts',
+  (LIB, 'impl<T, C, RNG> Foca<T, C, RNG, NoCustomBroadcast>\nwhere', '// a comment\n// another one\n\n\nimpl<T, C, RNG> Foca<T, C, RNG, NoCustomBroadcast>\nwhere'),
+  (MEMBER, 'pub type Incarnation = u16;', '// moved\n\n\npub type Incarnation = u16;'))
+N('n_rename_locals', ALL, 'local variables renamed',
+  (LIB, '''        let sender_is_active = self
+            // It's a known member, so we ensure our knowledge about''', '''        let is_sender_alive_here = self
+            // It's a known member, so we ensure our knowledge about'''),
+  (LIB, '        if !sender_is_active {\n', '        if !is_sender_alive_here {\n'),
+  (LIB, '        let probe_was_incomplete = !self.probe.validate();\n        if probe_was_incomplete {', '        let cycle_broken = !self.probe.validate();\n        if cycle_broken {'),
+  (LIB, '        if probe_was_incomplete {\n            Err(Error::IncompleteProbeCycle)', '        if cycle_broken {\n            Err(Error::IncompleteProbeCycle)'))
+N('n_matches_to_match', ALL, 'matches! replaced by an explicit match in the kind predicates',
+  (PAYLOAD, '        !matches!(self, Self::Announce | Self::TurnUndead)\n', '        match self {\n            Self::Announce | Self::TurnUndead => false,\n            _ => true,\n        }\n'),
+  (PAYLOAD, '        matches!(self, Self::Feed)', '        match self {\n            Self::Feed => true,\n            _ => false,\n        }'))
+N('n_if_else_swapped', ALL, 'if/else branches swapped with the condition negated',
+  (LIB, '''        if self.connection_state != ConnectionState::Undead {
+            Err(Error::NotUndead)
+        } else {
+            self.reset();
+            Ok(())
+        }''', '''        if self.connection_state == ConnectionState::Undead {
+            self.reset();
+            Ok(())
+        } else {
+            Err(Error::NotUndead)
+        }'''),
+  (LIB, '''        if self.identity == new_id {
+            Err(Error::SameIdentity)
+        } else {''', '''        if self.identity == new_id {
+            return Err(Error::SameIdentity);
+        }
+        {'''))
+N('n_reorder_independent_statements', ALL, 'independent statements reordered',
+  (LIB, '''        self.connection_state = ConnectionState::Undead;
+
+        // We're down, whatever we find out by probing is unreliable
+        self.probe.clear();
+
+        // Just like `become_disconnected`, we want to avoid
+        // handling events that aren't relevant anymore.
+        self.timer_token = self.timer_token.wrapping_add(1);
+''', '''        // Just like `become_disconnected`, we want to avoid
+        // handling events that aren't relevant anymore.
+        self.timer_token = self.timer_token.wrapping_add(1);
+
+        // We're down, whatever we find out by probing is unreliable
+        self.probe.clear();
+
+        self.connection_state = ConnectionState::Undead;
+'''),
+  (PROBE, '        self.direct_ack_ok = false;\n        self.indirect_ack_count = 0;', '        self.indirect_ack_count = 0;\n        self.direct_ack_ok = false;'))
+N('n_temporaries_introduced', ALL, 'sub-expressions bound to temporaries',
+  (LIB, '''        if data.remaining() > self.config.max_packet_size.get() {
+            return Err(Error::DataTooBig);
+        }
+
+        let header = self''', '''        let limit = self.config.max_packet_size.get();
+        let given = data.remaining();
+        if given > limit {
+            return Err(Error::DataTooBig);
+        }
+
+        let header = self'''),
+  (MEMBER, '''        if self.can_change(incarnation, state) {
+            self.state = state;''', '''        let allowed = self.can_change(incarnation, state);
+        if allowed {
+            self.state = state;'''))
+N('n_early_return_style', ALL, 'nested if turned into early returns in a timer arm',
+  (LIB, '''            Timer::ProbeRandomMember(token) => {
+                if token == self.timer_token {
+                    if self.connection_state != ConnectionState::Connected {
+                        // Not expected to happen during normal operation, but
+                        // may reach here via manually crafted Timer::
+                        Err(Error::NotConnected)
+                    } else {
+                        self.probe_random_member(runtime)
+                    }
+                } else {
+                    // Invalid token, may happen whenever we go offline after
+                    // being online
+                    Ok(())
+                }
+            }''', '''            Timer::ProbeRandomMember(token) => {
+                if token != self.timer_token {
+                    return Ok(());
+                }
+                if self.connection_state != ConnectionState::Connected {
+                    return Err(Error::NotConnected);
+                }
+                self.probe_random_member(runtime)
+            }'''))
+N('n_helper_extracted', ALL, 'the cluster-update queueing of handle_apply_summary moved into a helper method',
+  (LIB, '''            if do_broadcast {
+                let addr = Addr(id.addr());
+                let data = self.serialize_member(update)?;
+                self.updates
+                    .add_or_replace(addr, data, self.config.max_transmissions.get().into());
+            }
+''', '''            if do_broadcast {
+                self.queue_update(&id, update)?;
+            }
+'''),
+  (LIB, '''    fn handle_custom_broadcasts(&mut self, mut data: &[u8], sender: Option<&T>) -> Result<()> {''', '''    fn queue_update(&mut self, id: &T, update: Member<T>) -> Result<()> {
+        let addr = Addr(id.addr());
+        let data = self.serialize_member(update)?;
+        self.updates
+            .add_or_replace(addr, data, self.config.max_transmissions.get().into());
+        Ok(())
+    }
+
+    fn handle_custom_broadcasts(&mut self, mut data: &[u8], sender: Option<&T>) -> Result<()> {'''))
+N('n_comparison_flipped', ALL, 'comparisons written the other way round',
+  (LIB, '                if token != self.timer_token {\n                    #[cfg(feature = "tracing")]\n                    tracing::trace!("Invalid timer token");', '                if self.timer_token != token {\n                    #[cfg(feature = "tracing")]\n                    tracing::trace!("Invalid timer token");'),
+  (LIB, 'if remaining >= 2 && header.message != Message::Broadcast {', 'if header.message != Message::Broadcast && 2 <= remaining {'),
+  (BROADCAST, '            if buffer.remaining_mut() >= node.data.len() + 2 {', '            if node.data.len() + 2 <= buffer.remaining_mut() {'))
+N('n_while_let_to_loop', ALL, 'while-let loop written as loop + match',
+  (LIB, '''        while let Some(chosen) = self.choice_buf.pop() {
+            self.send_message(chosen.into_identity(), Message::Announce, &mut runtime)?;
+        }''', '''        loop {
+            match self.choice_buf.pop() {
+                Some(chosen) => {
+                    self.send_message(chosen.into_identity(), Message::Announce, &mut runtime)?;
+                }
+                None => break,
+            }
+        }'''))
